@@ -4,6 +4,9 @@
 id=$1; shift
 if [ -n "$(git -C /repo status --porcelain)" ]; then echo "REFUSING: /repo has uncommitted changes"; git -C /repo status --short; exit 2; fi
 git -C /repo apply /verif/seeded/$id/patch.diff || { echo "patch does not apply"; exit 2; }
+# evidence written while a seeded change is applied must not replace the evidence of the unchanged tree
+save=$(mktemp -d /tmp/evsave.XXXXXX); cp -a /verif/evidence/. $save/
 for p in "$@"; do (cd /verif && ./bin/gov check -p $p 2>&1 | grep -v "^KNOWN-FINDING" | tail -6); done
 git -C /repo apply -R /verif/seeded/$id/patch.diff
+cp -a $save/. /verif/evidence/; rm -rf $save
 git -C /repo status --short
